@@ -180,7 +180,8 @@ func (r *Registry) GetNoCacheOutputHash(ctx context.Context, target *model.Targe
 			}
 			verifhook.Gate("outhash." + localOutputRef.Identifier)
 			outputsMutex.Lock()
-			digests = append(digests, outputDigest)
+			// bind the digest to its output: the same contents under exchanged outputs are different outputs
+			digests = append(digests, localOutputRef.String()+"="+outputDigest)
 			outputsMutex.Unlock()
 			return nil
 		})
